@@ -429,7 +429,7 @@ def load_pdx_bytes(pdx_bytes, refresh=True):
             db.refresh()
         return db, None
     except Exception as e:
-        return None, err_class(e) + ":" + str(e)[:160]
+        return None, err_class(e) + ":" + str(e)[:400]
 
 
 def load_trees(members, order=None, refresh=True):
@@ -439,6 +439,76 @@ def load_trees(members, order=None, refresh=True):
         db = Database()
         for n in (order or list(members)):
             db._process_xml_tree(ElementTree.fromstring(members[n]))
+        if refresh:
+            db.refresh()
+        return db, None
+    except Exception as e:
+        return None, err_class(e) + ":" + str(e)[:160]
+
+
+# ------------------------------------------------------------------------------------------------
+# namesake documents: an ODX document is identified by its short name AND its type (DOCREF + DOCTYPE; OdxDocFragment is the
+# pair), so documents of different categories — and a document and a diagnostic layer — may carry the same name.
+DOC_CATEGORIES = {"DIAG-LAYER-CONTAINER": ("dlc", "CONTAINER", ".odx-d"), "COMPARAM-SUBSET": ("subset", "COMPARAM-SUBSET", ".odx-cs"),
+                  "COMPARAM-SPEC": ("spec", "COMPARAM-SPEC", ".odx-c")}
+LAYER_GROUPS = ("PROTOCOLS", "FUNCTIONAL-GROUPS", "ECU-SHARED-DATAS", "BASE-VARIANTS", "ECU-VARIANTS")
+
+
+def doc_info(data):
+    """category ('dlc' | 'subset' | 'spec'), DOCTYPE, file suffix, short name and layer short names of an ODX document"""
+    root = ElementTree.fromstring(data)
+    for tag, (kind, doctype, suffix) in DOC_CATEGORIES.items():
+        el = root.find(tag)
+        if el is not None:
+            layers = [x.findtext("SHORT-NAME") for grp in el if grp.tag in LAYER_GROUPS for x in grp]
+            return {"tag": tag, "kind": kind, "doctype": doctype, "suffix": suffix, "name": el.findtext("SHORT-NAME"), "layers": layers}
+    raise ValueError("no category element")
+
+
+def rename_document(members, fname, new):
+    """the file set with the document in member `fname` renamed to `new`: its SHORT-NAME, every DOCREF to it (same DOCTYPE) in
+    every member and the member name (<short name><suffix>, as the writer names it); everything else byte for byte"""
+    import re
+    info = doc_info(members[fname])
+    old, doctype = info["name"], info["doctype"]
+    new_fname = new + info["suffix"]
+    if new_fname != fname and new_fname in members:
+        raise ValueError("member name taken: " + new_fname)
+
+    def fix_tag(m):
+        t = m.group(0)
+        if f'DOCREF="{old}"' in t and f'DOCTYPE="{doctype}"' in t:
+            return t.replace(f'DOCREF="{old}"', f'DOCREF="{new}"')
+        return t
+
+    out = {}
+    for n, data in members.items():
+        text = data.decode("utf-8")
+        if n == fname:
+            text, cnt = re.subn(r"(<" + info["tag"] + r"\b[^>]*>\s*<SHORT-NAME>)" + re.escape(old) + r"(</SHORT-NAME>)",
+                                lambda m: m.group(1) + new + m.group(2), text, count=1)
+            if cnt != 1:
+                raise ValueError("SHORT-NAME of the category element not found in " + fname)
+        text = re.sub(r"<[A-Za-z][^<>]*\bDOCREF=[^<>]*>", fix_tag, text)
+        out[new_fname if n == fname else n] = text.encode("utf-8")
+    return out
+
+
+def load_isolated(members, aux=None, refresh=True):
+    """the database the documents describe, without any loader call history: every document is parsed by a Database object of
+    its own and the parsed containers are put together (as a program that builds a database does); -> (db | None, error)"""
+    from odxtools.database import Database
+    try:
+        db = Database()
+        for n, data in (aux or {}).items():
+            db.add_auxiliary_file(n, io.BytesIO(data))
+        for n in sorted(members):
+            one = Database()
+            one._process_xml_tree(ElementTree.fromstring(members[n]))
+            db.diag_layer_containers.extend(one.diag_layer_containers)
+            db.comparam_subsets.extend(one.comparam_subsets)
+            db.comparam_specs.extend(one.comparam_specs)
+            db.model_version = one.model_version
         if refresh:
             db.refresh()
         return db, None
